@@ -1,4 +1,5 @@
 import SparseSpace.Properties.C13
+import SparseSpace.Properties.C13gen
 #print axioms SparseSpace.C13.stopNow_iff
 #print axioms SparseSpace.C13.stops_at_first
 #print axioms SparseSpace.C13.stops_iff
@@ -12,3 +13,10 @@ import SparseSpace.Properties.C13
 #print axioms SparseSpace.C13.benefit_nonneg
 #print axioms SparseSpace.C13.points_count_distinct
 #print axioms SparseSpace.C13.points_monotone
+-- translator tie (Properties/C13gen.lean): performSpatiallyAdaptiv / continue_adaptive_refinement generated from spatiallyAdaptiveBase.py by tools/py2lean (spec adaptdriver.json) agree with Model/AdaptDriver
+#print axioms SparseSpace.C13gen.stop_test_agrees
+#print axioms SparseSpace.C13gen.round_agrees
+#print axioms SparseSpace.C13gen.loop_agrees
+#print axioms SparseSpace.C13gen.continue_agrees
+#print axioms SparseSpace.C13gen.perform_agrees
+#print axioms SparseSpace.C13gen.gen_stops_at_first
